@@ -3,8 +3,6 @@ package traceql_transpiler
 import (
 	"github.com/metrico/qryn/reader/logql/logql_transpiler_v2/shared"
 	"github.com/metrico/qryn/reader/model"
-	"strconv"
-	"time"
 )
 
 type ComplexRequestProcessor struct {
@@ -14,7 +12,6 @@ type ComplexRequestProcessor struct {
 func (t *ComplexRequestProcessor) Process(ctx *shared.PlannerContext,
 	complexity int64) (chan []model.TraceInfo, error) {
 	portions := (complexity + COMPLEXITY_THRESHOLD - 1) / COMPLEXITY_THRESHOLD
-	from := ctx.From
 	var cachedTraceIDs []string
 	var res []model.TraceInfo
 	for i := int64(0); i < portions; i++ {
@@ -23,9 +20,8 @@ func (t *ComplexRequestProcessor) Process(ctx *shared.PlannerContext,
 			I:   int(i),
 		}
 		ctx.CachedTraceIds = cachedTraceIDs
-		ctx.From = from
 		var err error
-		res, from, cachedTraceIDs, err = t.ProcessComplexReqIteration(ctx)
+		res, cachedTraceIDs, err = t.ProcessComplexReqIteration(ctx)
 		if err != nil {
 			return nil, err
 		}
@@ -44,32 +40,21 @@ func (t *ComplexRequestProcessor) Process(ctx *shared.PlannerContext,
 }
 
 func (t *ComplexRequestProcessor) ProcessComplexReqIteration(ctx *shared.PlannerContext) (
-	[]model.TraceInfo, time.Time, []string, error) {
+	[]model.TraceInfo, []string, error) {
 	var res []model.TraceInfo
-	var from time.Time
 	var cachedTraceIDs []string
 	planner := &TraceQLRequestProcessor{t.main}
 	_res, err := planner.Process(ctx)
 	if err != nil {
-		return nil, from, cachedTraceIDs, err
+		return nil, cachedTraceIDs, err
 	}
 	for info := range _res {
 		for _, _info := range info {
-			startTimeUnixNano, err := strconv.ParseInt(_info.StartTimeUnixNano, 10, 64)
-			if err != nil {
-				return nil, from, cachedTraceIDs, err
-			}
-			if from.Nanosecond() == 0 || from.After(time.Unix(0, startTimeUnixNano)) {
-				from = time.Unix(0, startTimeUnixNano)
-			}
 			res = append(res, _info)
 			cachedTraceIDs = append(cachedTraceIDs, _info.TraceID)
 		}
 	}
-	if int64(len(res)) != ctx.Limit {
-		from = ctx.From
-	}
-	return res, from, cachedTraceIDs, nil
+	return res, cachedTraceIDs, nil
 }
 
 func (c *ComplexRequestProcessor) SetMain(main shared.SQLRequestPlanner) {
